@@ -168,6 +168,9 @@ class Report:
         )
         with open(os.path.join(evdir, f'{self.prop}.json'), 'w') as f:
             json.dump(ev, f, indent=1, default=str)
+        for key in self.known:
+            if key not in [k for k, _, _ in self.known_hits]:
+                lines.append(f'NOTE: known finding of {self.prop} not reported by this run (repaired upstream, or the rule no longer sees it): {key}')
         for l in lines:
             print(l)
         if self.infra_errors:
